@@ -20,6 +20,7 @@ const sigIm0 = "im0-executes-at-pc"
 // exactly are recognised, counted and adopted so that the search goes on.
 type lockRig struct {
 	ib, mb     *bus.Rec
+	rb         *bus.Rec // memory of the Run-driven twin (C04 programs)
 	cpu        z80.CPU
 	ms         ref.State
 	retn, reti counter
@@ -34,7 +35,12 @@ type lockRig struct {
 	prev    z80.CPU
 	alt     z80.CPU // every other Step executes on this copy (another address than r.cpu)
 	flip    bool
-	afterEI bool // previous Step executed EI
+	// during: a device callback raises this request at the duringAt-th bus access of the next Step (a memory-mapped
+	// interrupt controller); it is neither served in that Step nor lost, whatever the Step does - also when the
+	// Step is itself the acknowledge of an earlier request
+	during   *ref.Request
+	duringAt int
+	afterEI  bool // previous Step executed EI
 	parked  bool // previous Step executed HALT (CPU is parked on it)
 	known   map[string]bool
 	// strictEI: do not allow the one-instruction EI shadow (used by nothing yet)
@@ -85,6 +91,7 @@ func (r *lockRig) init(st ref.State, memSeed, ioSeed uint64, fill, ioFill int) {
 	eng.ToCPU(&st, &r.cpu)
 	r.ms = st
 	r.mReq = nil
+	r.during = nil
 	r.afterEI = false
 	r.parked = false
 }
@@ -95,6 +102,20 @@ func (r *lockRig) poke(a uint16, v uint8) {
 	if r.useDumb {
 		r.dumb[a] = v
 	}
+}
+
+// raiseDuring arms a device callback for the next Step (see lockRig.during).
+func (r *lockRig) raiseDuring(k int, req ref.Request) {
+	q := req
+	q.Data = append([]uint8(nil), req.Data...)
+	r.during, r.duringAt = &q, k
+}
+
+func mkInterrupt(req *ref.Request) *z80.Interrupt {
+	if req.NMI {
+		return z80.NMIInterrupt()
+	}
+	return &z80.Interrupt{Type: z80.IMType, Data: append([]uint8(nil), req.Data...)}
 }
 
 // raise sets the same pending request on both sides.
@@ -119,6 +140,8 @@ type lockStep struct {
 	refused  bool   // a pending maskable request was refused in this Step
 	variant  string // which legal outcome matched ("", "ei-shadow", "halt-released")
 	known    string // signature of the known finding this Step reproduces exactly
+	// a device callback raised a request during this Step (and it is pending now)
+	raisedDuring bool
 }
 
 // im0Domain: instruction classes a mode-0 device may supply within C06's domain (RST p, CALL nn and
@@ -203,14 +226,28 @@ func (r *lockRig) step() lockStep {
 	// every other Step runs on a struct copy living at another address, the original being scribbled over
 	r.flip = !r.flip
 	var pan any
+	target := &r.cpu
 	if r.flip {
 		r.alt = r.cpu
 		r.cpu.States = z80.States{}
-		pan = eng.SafeStep(&r.alt)
+		target = &r.alt
+	}
+	dur, fired := r.during, false
+	r.during = nil
+	if dur != nil && !r.useDumb {
+		at, it := r.ib.Accesses()+r.duringAt, mkInterrupt(dur)
+		r.ib.Hook = func(n int, _ bus.Access) {
+			if n == at {
+				target.Interrupt = it
+				fired = true
+			}
+		}
+	}
+	pan = eng.SafeStep(target)
+	r.ib.Hook = nil
+	if r.flip {
 		r.cpu = r.alt
 		r.alt.States = z80.States{}
-	} else {
-		pan = eng.SafeStep(&r.cpu)
 	}
 	o.logged = atomic.LoadInt64(&logLines) != l0
 	got := eng.FromCPU(&r.cpu)
@@ -272,11 +309,17 @@ func (r *lockRig) step() lockStep {
 			ds = append(ds, eng.Disc{Kind: eng.KIntr,
 				Msg: fmt.Sprintf("RETN/RETI handler calls %d/%d want %d/%d", r.retn.n, r.reti.n, wantN, wantI)})
 		}
-		pendingAfter := r.mReq != nil && !consumed
+		pendingAfter, wantReq := r.mReq != nil && !consumed, r.mReq
+		if fired {
+			pendingAfter, wantReq = true, dur
+		}
 		if (r.cpu.Interrupt != nil) != pendingAfter {
 			ds = append(ds, eng.Disc{Kind: eng.KIntr,
 				Msg: fmt.Sprintf("pending request after the Step: emulator %v, want %v", r.cpu.Interrupt != nil, pendingAfter)})
-		} else if pendingAfter && !sameRequest(r.cpu.Interrupt, r.mReq) {
+			if fired {
+				ds[len(ds)-1].Msg += " (a device callback raised a request during this Step)"
+			}
+		} else if pendingAfter && !sameRequest(r.cpu.Interrupt, wantReq) {
 			ds = append(ds, eng.Disc{Kind: eng.KIntr, Msg: "pending request was altered"})
 		}
 		if len(ds) == 0 {
@@ -290,6 +333,10 @@ func (r *lockRig) step() lockStep {
 				o.accepted = true
 			} else if r.mReq != nil {
 				o.refused = !(c.variant == "ei-shadow")
+			}
+			if fired {
+				r.mReq = dur
+				o.raisedDuring = true
 			}
 			o.in = in
 			o.variant, o.known = c.variant, c.known
